@@ -6,7 +6,7 @@ tier=${1:-quick}
 filter=${MATRIX_FILTER:-.}
 out=${MATRIX_OUT:-/verif/seeded/MATRIX.txt}
 : > $out.tmp
-for d in /verif/seeded/*/; do
+for d in ${SEEDED_DIR:-/verif/seeded}/*/; do
   name=$(basename $d)
   [ -f $d/patch.diff ] || continue
   echo "$name" | grep -Eq "$filter" || continue
